@@ -116,6 +116,9 @@ func c19Run[T any](typ string, mk func(int) T, ops []c19Op, classes *c19Classes)
 	var catalog col.CatalogLike[string, T]
 	emit := func(name string, v any) { log = append(log, name+"="+fmt.Sprintf("%v", v)) }
 	vals := func(n, a int) []T {
+		if n == 5 {
+			n = 40 // a size beyond small-input fast paths
+		}
 		out := make([]T, 0, n)
 		for i := 0; i < n; i++ {
 			out = append(out, mk((a*7+i*5)%11))
@@ -427,7 +430,7 @@ func (propC19) Meta() PropMeta {
 			"ShuffleValues draws from a seed-derived stream keyed by the logical task, so serial and concurrent executions draw the same numbers",
 		},
 		Real: realComponents, Stub: stubComponents,
-		FaultKinds: []string{"preemptions", "stall_steps", "access_preemptions", "rmw_split_preemptions", "park_on_held_mutex", "park_on_waitgroup"},
+		FaultKinds: []string{"preemptions", "stall_steps", "access_stalls", "access_preemptions", "rmw_split_preemptions", "park_on_held_mutex", "park_on_waitgroup"},
 	}
 }
 
